@@ -166,6 +166,13 @@ func (l *Ledger) SetFaults(tx string, ords []int) {
 	l.faults[tx] = m
 }
 
+// ResetOrd forgets the dependency-call count of a transaction tag (after a simulation of it).
+func (l *Ledger) ResetOrd(tx string) {
+	l.mu.Lock()
+	defer l.mu.Unlock()
+	delete(l.ords, tx)
+}
+
 func (l *Ledger) Calls() []Call {
 	l.mu.Lock()
 	defer l.mu.Unlock()
